@@ -385,7 +385,7 @@ func (rn *rnode) rremove(topic []byte) error {
 	}
 
 	// If there are no more rnodes to the next level we just visited let's remove it
-	if len(n.rnodes) == 0 {
+	if len(n.rnodes) == 0 && n.msg == nil {
 		delete(rn.rnodes, level)
 	}
 
